@@ -370,6 +370,39 @@ var c17History = probe.Define("C17", "history", func(t *rapid.T) c17In {
 		if prev := len(in.Ops) - 1; prev >= 0 && (op.Op == "protect" || op.Op == "unprotect-genuine") && in.Ops[prev].Bulk == 0 &&
 			(in.Ops[prev].Op == "protect" || in.Ops[prev].Op == "unprotect-genuine") && rapid.IntRange(0, 3).Draw(t, "same-message-again") == 3 {
 			op.Msg = in.Ops[prev].Msg
+		} else if (op.Op == "protect" || op.Op == "unprotect-genuine") && len(in.Ops) >= 2 && rapid.IntRange(0, 4).Draw(t, "earlier-message-again") == 4 {
+			// ... or the message of an EARLIER step, with other messages in between (A B A): the very same datagram arrives again
+			// (producer, IV and role of that step are kept, so that the octets are the same)
+			k := rapid.IntRange(0, len(in.Ops)-2).Draw(t, "earlier")
+			if src := &in.Ops[k]; (src.Op == "protect" || src.Op == "unprotect-genuine") && src.Bulk == 0 {
+				if src.Op == "unprotect-genuine" && len(src.IV) == 16 {
+					src.Producer = "ref" // the reference sender with a given IV: the same octets both times
+				}
+				op.Msg, op.Producer, op.IV, op.AsI = src.Msg, src.Producer, src.IV, src.AsI
+				if src.Op == "unprotect-genuine" || rapid.Bool().Draw(t, "earlier-as-received") {
+					op.Op = "unprotect-genuine"
+				}
+			}
+		}
+		if op.Op == "derive-child" {
+			// nonces related to those of an earlier derivation on this SA: the same, an extension, a prefix
+			for j := len(in.Ops) - 1; j >= 0; j-- {
+				if in.Ops[j].Op != "derive-child" {
+					continue
+				}
+				prev := in.Ops[j].Nonce
+				switch rapid.IntRange(0, 5).Draw(t, "nonce-relation") {
+				case 3:
+					op.Nonce = append(model.Bytes(nil), prev...)
+				case 4:
+					op.Nonce = append(append(model.Bytes(nil), prev...), gen.BytesLen(t, "nonce-extension", 1, 40, 1, 16)...)
+				case 5:
+					if len(prev) > 1 {
+						op.Nonce = append(model.Bytes(nil), prev[:rapid.IntRange(1, len(prev)-1).Draw(t, "nonce-prefix")]...)
+					}
+				}
+				break
+			}
 		}
 		in.Ops = append(in.Ops, op)
 	}
@@ -378,8 +411,10 @@ var c17History = probe.Define("C17", "history", func(t *rapid.T) c17In {
 
 func TestC17(t *testing.T) {
 	c := probe.NewCtx(t, "C17")
+	idleStart(c, "sa-pair")
 	if c.Shard == 0 {
 		endurance(c, "C17", "protect-unprotect", 70000)
 	}
 	c17History.Run(c, t, c.N(400, 4000))
+	idleFinish(c, "C17", "sa-pair")
 }
